@@ -19,7 +19,7 @@ def run(ctx):
     inst = next_level_instances(ctx)
     r.analysed["instances"] = ["%s%s -> %s" % (v.ci.name, ("+" + p.ci.name) if p else "", n.ci.name) for v, p, n in inst]
     for v, p, n in inst:
-        next_level_inclusion(ctx, v, p, n, "C11.next-level")
+        ctx.guard(next_level_inclusion, ctx, v, p, n, "C11.next-level")
     # "such a product can itself be assembled": the closed form the inclusion is stated on
     from ..kernels import run_kernels
     run_kernels(ctx, ["K7", "K8", "K14"], "C11")
